@@ -1,7 +1,7 @@
 (* C20 -- gallery operators equal the discretisations they document.  Property theorems. *)
 From Coq Require Import ZArith List Bool Ring.
 Import ListNotations.
-Require Import PV.Model.Stencil PV.Model.StencilRun PV.Proofs.StencilBounded PV.Proofs.StencilProofs PV.Proofs.StencilEntry PV.Model.Poisson PV.Proofs.PoissonProofs PV.Proofs.GalleryProofs.
+Require Import PV.Model.Stencil PV.Model.StencilRun PV.Proofs.StencilBounded PV.Proofs.StencilProofs PV.Proofs.StencilEntry PV.Model.Poisson PV.Proofs.PoissonProofs PV.Proofs.StencilRowSum PV.Proofs.GalleryProofs.
 Require Import PV.Base.Ops PV.Proofs.RelaxProofs PV.Model.Diffusion PV.Proofs.DiffusionProofs.
 
 (* stencil_grid = "row of a grid point holds the stencil entries of the neighbours that exist":
@@ -81,6 +81,24 @@ Proof.
   exact (poisson_offdiagonal N p q).
 Qed.
 Print Assumptions C20_poisson_symmetric_sign_pattern.
+
+(* row sums: the sum of row p of the stencil matrix is the sum of the nonzero stencil entries whose neighbour p + offset exists
+   in the grid (every grid, every dimension, every integer stencil) *)
+Theorem C20_stencil_row_sum : forall shape g vals p,
+  Forall (fun d => 0 < d)%Z g -> length shape = length g -> length p = length g ->
+  row_sum shape g vals p =
+  sumZ (map (fun e => if negb (snd e =? 0)%Z && validb g (vec_add p (centred shape (fst e))) then snd e else 0%Z)
+            (combine (Stencil.box shape) vals)).
+Proof. exact stencil_row_sum. Qed.
+Print Assumptions C20_stencil_row_sum.
+
+(* the finite-difference Poisson matrix is weakly diagonally dominant on every grid in every dimension: every row sum is >= 0
+   (the stencil sums to zero in every dimension and only entries -1 are cut off at the boundary); together with the sign
+   pattern above: |a_pp| >= sum of |a_pq| over q <> p *)
+Theorem C20_poisson_fd_weakly_diagonally_dominant : forall g p, Forall (fun d => 0 < d)%Z g -> valid g p ->
+  (0 <= sumZ (map (fun q => fd_entry (length g) p q) (Stencil.box g)))%Z.
+Proof. exact poisson_fd_row_sums_nonneg. Qed.
+Print Assumptions C20_poisson_fd_weakly_diagonally_dominant.
 
 Example C20_poisson_example :
   poissonZ false [2; 3]%Z = [[4; -1; 0; -1; 0; 0]; [-1; 4; -1; 0; -1; 0]; [0; -1; 4; 0; 0; -1];
